@@ -37,9 +37,9 @@ def cases(tier, seed):
     tabs = [list(c) for r in (2, 3) for c in itertools.combinations(names, r)]
     for t in tabs:
         for model in ("linear", "tree"):
-            yield {"kind": "cor", "cols": t, "model": model, "draws": 1}
+            yield {"kind": "cor", "cols": t, "model": model, "draws": 1, "tier": tier}
     for t in tabs[::max(1, len(tabs) // bounds(tier)["draws2_tables"])][:bounds(tier)["draws2_tables"]]:
-        yield {"kind": "cor", "cols": t, "model": "linear", "draws": 2}
+        yield {"kind": "cor", "cols": t, "model": "linear", "draws": 2, "tier": tier}
     yield {"kind": "conformance"}
     n = bounds(tier)["r2_n"]
     alpha = (0.5, 1.0, 2.0, 4.0)
@@ -92,7 +92,8 @@ def _cor(case, bad):
             variants = [("array", arr), ("frame", frame)]
             if (arr == numpy.round(arr)).all():
                 variants.append(("int array", arr.astype(numpy.int64)))      # same table, integer dtype
-                variants.append(("int frame", frame.astype(numpy.int64)))
+                if case.get("tier") == "thorough":
+                    variants.append(("int frame", frame.astype(numpy.int64)))
             for kind, data in variants:
                 data0 = data.copy()
                 if has_seam:
